@@ -457,6 +457,60 @@ def chain_parameters_shared(ctx: Ctx, rule: str) -> None:
                "" if not bad else f"step `{bad[0][0]}` writes into the parameters every later step of the chain starts from: {bad[0][1]}")
 
 
+def unknown_step_contained(ctx: Ctx, rule: str) -> None:
+    """The lookup of a step by its configured name raises AttributeError for a mistyped / removed step (the README still names `deploy`):
+    like any other failure of a step it must make the chain report failure without ending it - so it lies inside the per-step try
+    (or has a default, or the chain is validated against the published steps before anything runs)."""
+    fn = ctx.repo.func(MANU)
+    ctx.touch(MANU)
+    loop = the_loop(ctx, MANU, ast.For, lambda l: any(call_name(c) == "getattr" for c in calls_in(l)), "setup chain loop")
+    lookups = [c for c in calls_in(loop) if call_name(c) == "getattr" and c.args and ast.unparse(c.args[0]) == "intertest"]
+    if not lookups:
+        raise AnalysisError(f"{MANU}: step lookup not found")
+    unprotected = []
+    for c in lookups:
+        in_try = any(isinstance(t, ast.Try) and any(x is c for b in t.body for x in ast.walk(b))
+                     and any(h.type is None or ast.unparse(h.type) in ("Exception", "AttributeError", "BaseException") or "AttributeError" in ast.unparse(h.type) for h in t.handlers)
+                     for t in ast.walk(loop))
+        if not in_try and len(c.args) < 3:
+            unprotected.append(c)
+    # validation of the whole chain before the loop: a test of every step name against the module (hasattr / __all__) that returns non-zero
+    validated = False
+    for st in fn.node.body[:fn.node.body.index(loop)]:
+        for i_ in ast.walk(st):
+            if isinstance(i_, ast.If) and ("__all__" in ast.unparse(i_.test) or "hasattr(intertest" in ast.unparse(i_.test)) \
+                    and any(isinstance(r, ast.Return) and isinstance(r.value, ast.Constant) and r.value.value not in (0, None) for r in ast.walk(i_)):
+                validated = True
+    ok = not unprotected or validated
+    ctx.record(rule, "GUARD", MANU, "the lookup of a step by name is contained like the step itself: an unknown step makes the chain report failure, the other steps run", ok,
+               {"lookups": len(lookups), "validated_before": validated},
+               "" if ok else f"`{ast.unparse(unprotected[0])}` is outside the per-step try: a mistyped or removed step name raises AttributeError out of Manu.run after the earlier steps "
+               "have run - no exit status, the later steps are skipped")
+
+
+def optional_arguments(ctx: Ctx, rule: str) -> None:
+    """config['param_dict'] holds exactly the key=value pairs given on the command line - every key in it is optional (parse_workers falls back to
+    the configured nets, the vm selection to the default vms).  A subscript read of it in a step raises KeyError for an omitted argument and
+    the step acts on no worker / vm at all."""
+    tree = ctx.repo.module(IS)
+    shared = "config['param_dict']"
+    bad, n_tolerant = [], 0
+    for fn_ in tree.body:
+        if not isinstance(fn_, ast.FunctionDef):
+            continue
+        for x in ast.walk(fn_):
+            if isinstance(x, ast.Subscript) and isinstance(x.ctx, ast.Load) and ast.unparse(x.value) == shared and isinstance(x.slice, ast.Constant):
+                guarded = any(isinstance(i_, ast.If) and f"'{x.slice.value}' in {shared}" in ast.unparse(i_.test) and any(y is x for b in i_.body for y in ast.walk(b)) for i_ in ast.walk(fn_))
+                if not guarded:
+                    bad.append(f"{fn_.name}: {ast.unparse(x)}")
+            elif isinstance(x, ast.Call) and call_name(x) == "get" and ast.unparse(x.func.value) == shared:
+                n_tolerant += 1
+    if n_tolerant == 0:
+        raise AnalysisError("no tolerant read of config['param_dict'] found (the rule would pass vacuously)")
+    ctx.record(rule, "GUARD", IS, "command line arguments are read from config['param_dict'] with a default (they are all optional)", not bad, {"tolerant_reads": n_tolerant, "subscript_reads": bad},
+               "" if not bad else f"a step requires an optional command line argument: {bad[0]} raises KeyError when it is omitted (the step then handles none of the default workers)")
+
+
 def run(ctx: Ctx) -> None:
     from .c10 import status_rewrites, verdict
 
@@ -475,10 +529,14 @@ def run(ctx: Ctx) -> None:
     }, "manual steps flag every node from the shared root")
     ctx.call(step_table, "5")
     ctx.call(chain_parameters_shared, "9")
+    ctx.call(unknown_step_contained, "1u")
+    ctx.call(optional_arguments, "5n")
 
 
 M = "plugins/manu.py"
 MUTANTS = [
+    ('step-lookup-outside-try', 'plugins/manu.py', '            try:\n                # an unknown step is a failed step like any other\n                setup_func = getattr(intertest, setup_step)\n', '            setup_func = getattr(intertest, setup_step)\n            try:\n', '1u'),
+    ('stop-requires-nets-argument', 'intertest_setup.py', '    selected_nets = [worker.id for worker in workers]\n    LOG_UI.info(\n        "Stopping worker nets', '    selected_nets = config["param_dict"]["nets"].split(" ")\n    LOG_UI.info(\n        "Stopping worker nets', '5n'),
     ("slow-failure-becomes-warn", "plugins/runner.py", "                    if (\n                        test_result[\"status\"] == \"PASS\"\n                        and float(duration) > 1.25 * max_allowed\n                    ):", "                    if float(duration) > 1.25 * max_allowed:", "7z"),
     ("list-step-writes-shared-parameters", "intertest_setup.py", "        setup_dict = config[\"param_dict\"].copy()\n        # listing can only be done in serial mode\n        setup_dict[\"nets\"] = config[\"param_dict\"].get(\"nets\", \"net0\")", "        setup_dict = config[\"param_dict\"]\n        # listing can only be done in serial mode\n        setup_dict.setdefault(\"nets\", \"net0\")", "9"),
     ("chain-deduplicated", "plugins/manu.py", "        setup_chain = run_params.get(\"setup\", \"\").split()", "        setup_chain = run_params.objects(\"setup\")", "1"),
